@@ -126,8 +126,9 @@ def target_fit_command():
     qual = "command"
 
     def run(sess: Session):
-        for refinements in (0, 2):
-            d = FakeData("d0")
+        for refinements, n_data in ((0, 1), (2, 1), (1, 2)):
+            ds = [FakeData(f"d{i}") for i in range(n_data)]
+            d = ds[0]
             printed, calls, fmt = [], [], []
             A = {k: T.var("args." + k) for k in ("circuit", "method", "weight", "max_nfev", "num_procs", "timeout", "running_count")}
             args = SimpleNamespace(num_refinements=refinements, plot_type="fit", plot_title=False, output=False, plot_no_legend=False, plot_colored_axes=False,
@@ -169,23 +170,31 @@ def target_fit_command():
                     return "CDC*"
             cir = Cir()
             parsed = []
-            ns = {"parse_cdc": lambda s: parsed.append(s) or cir, "parse_inputs": lambda a: {"path": [d]}, "apply_filters": lambda x, a: None, "fit_circuit": fit_circuit,
+            ns = {"parse_cdc": lambda s: parsed.append(s) or cir, "parse_inputs": lambda a: {"path": list(ds)}, "apply_filters": lambda x, a: None, "fit_circuit": fit_circuit,
                   "format_text": format_text, "mpl": mpl, "get_backend": lambda: "agg", "set_figure_size": lambda *a: None, "clear_default_handler_output": lambda: None,
                   "plt": SimpleNamespace(close=lambda: None, show=lambda: None), "COLOR_BLACK": "k", "get_output_path": None, "len": len, "list": list, "map": map,
                   "enumerate": enumerate, "range": range, "open": None}
             O.load(FITM, [qual], ns)
             ns[qual](None, args, print_func=printed.append)
             sess.check("post", [], z3.BoolVal(len(parsed) == 1 and parsed[0] is A["circuit"]), 0, label=f"[refinements={refinements}]circuit = parse_cdc(args.circuit)")
-            sess.check("post", [], z3.BoolVal(len(calls) == 1 + refinements), 0, label=f"[refinements={refinements}]1 + num_refinements calls of fit_circuit")
+            tag = f"[refinements={refinements},data sets={n_data}]"
+            per = 1 + refinements
+            sess.check("post", [], z3.BoolVal(len(calls) == per * n_data), 0, label=f"{tag}1 + num_refinements calls of fit_circuit per data set")
             for i, (c, kw) in enumerate(calls):
-                okc = (c is cir) if i == 0 else (c == ("circuit-of-fit", i))
-                sess.check("post", [], z3.BoolVal(okc and kw.get("data") is d and sorted(kw) == ["data", "max_nfev", "method", "num_procs", "timeout", "weight"]), 0, label=f"[refinements={refinements}]call {i}: circuit/data/keyword set")
+                di, j = divmod(i, per)
+                # the first fit of EVERY data set starts from the circuit given on the command line; refinements continue from the previous fit
+                okc = (c is cir) if j == 0 else (c == ("circuit-of-fit", i))
+                sess.check("post", [], z3.BoolVal(bool(okc) and di < len(ds) and kw.get("data") is ds[di] and sorted(kw) == ["data", "max_nfev", "method", "num_procs", "timeout", "weight"]), 0, label=f"{tag}call {i}: circuit/data/keyword set")
                 for key in ("method", "weight", "max_nfev", "num_procs", "timeout"):
-                    sess.check("post", [], z3.BoolVal(kw.get(key) is A[key]), 0, label=f"[refinements={refinements}]call {i}: {key}=args.{key} (argument-for-argument forwarding)")
-            last = len(calls)
-            sess.check("post", [], z3.BoolVal(len(fmt) == 2 and fmt[0][0] == ("params", last, {"running": A["running_count"]}) and fmt[1][0] == ("stats", last) and all(f[1] is args for f in fmt)), 0,
-                       label=f"[refinements={refinements}]report tables = parameters (running=args.running_count) and statistics of the LAST fit")
-            sess.check("post", [], z3.BoolVal(any(p == "CDC: CDC*\n\n<<table1>>\n\n<<table2>>" for p in printed)), 0, label=f"[refinements={refinements}]printed report = CDC, parameter table, statistics table")
+                    sess.check("post", [], z3.BoolVal(kw.get(key) is A[key]), 0, label=f"{tag}call {i}: {key}=args.{key} (argument-for-argument forwarding)")
+            want_fmt = []
+            for di in range(n_data):
+                last = per * (di + 1)
+                want_fmt += [("params", last, {"running": A["running_count"]}), ("stats", last)]
+            sess.check("post", [], z3.BoolVal([f[0] for f in fmt] == want_fmt and all(f[1] is args for f in fmt)), 0,
+                       label=f"{tag}report tables = parameters (running=args.running_count) and statistics of the LAST fit of each data set")
+            reports = [p for p in printed if isinstance(p, str) and p.startswith("CDC: ")]
+            sess.check("post", [], z3.BoolVal(reports == [f"CDC: CDC*\n\n<<table{2 * k + 1}>>\n\n<<table{2 * k + 2}>>" for k in range(n_data)]), 0, label=f"{tag}printed report = CDC, parameter table, statistics table")
     return (f"{FITM}:{qual}", FITM, qual, run)
 
 
